@@ -13,8 +13,9 @@ Inductive outspec :=
 | ORaw (b : bytes).
 
 Fixpoint payload_from (k : nat) (x b : N) : bytes :=   (* x = (a + j*b) mod 256, kept reduced: linear time *)
-  match k with O => [] | S k' => x :: payload_from k' ((x + b) mod 256) b end.
-Definition payload (n a b : N) : bytes := payload_from (N.to_nat n) (a mod 256) b.
+  match k with O => [] | S k' => x :: payload_from k' (let y := x + b in if 256 <=? y then y - 256 else y) b end.
+(* b is reduced once, so x + b < 512 and one conditional subtraction is the reduction mod 256 (no division per byte) *)
+Definition payload (n a b : N) : bytes := payload_from (N.to_nat n) (a mod 256) (b mod 256).
 Definition entry (e : N * N * N) : bytes := let '(n, a, b) := e in dbe24 n ++ payload n a b ++ [0; 0].
 Definition build (entries : list (N * N * N)) : bytes :=
   let body := concat (map entry entries) in 0 :: dbe24 (dlen body) ++ body.
@@ -25,7 +26,10 @@ Definition out_of (o : outspec) : bytes :=
   end.
 
 Definition adler (b : bytes) : N * N :=
-  fold_left (fun '(s1, s2) x => let s1' := (s1 + x) mod 65521 in (s1', (s2 + s1') mod 65521)) b (1, 0).
+  (* bytes are < 256 < 65521, so one conditional subtraction per sum is the reduction mod 65521 *)
+  fold_left (fun '(s1, s2) x =>
+    let a := s1 + x mod 256 in let s1' := if 65521 <=? a then a - 65521 else a in
+    let c := s2 + s1' in (s1', if 65521 <=? c then c - 65521 else c)) b (1, 0).
 
 Inductive obs :=
 | OOk (len s1 s2 : N) (full : option bytes)    (* recovered message re-marshalled: length, fingerprint, bytes if small *)
